@@ -3,6 +3,7 @@ package main
 import (
 	"bytes"
 	"fmt"
+	"math/big"
 	"reflect"
 	"sort"
 	"strings"
@@ -227,6 +228,10 @@ func (v *Val) Build(order int) interface{} {
 		return []byte(v.S)
 	case "buffer": // *bytes.Buffer: a value whose own methods (WriteTo, Read, Next) consume it
 		return bytes.NewBufferString(v.S)
+	case "bigint": // *big.Int
+		return big.NewInt(v.I)
+	case "bigrat": // *big.Rat
+		return big.NewRat(v.I, 7)
 	case "lazy": // func() interface{}: a value somebody might want to compute on first use
 		text := v.S
 		return func() interface{} { return text }
